@@ -59,10 +59,8 @@ func parseClusterNodes(data string) (map[string]*instance, error) {
 			continue
 		}
 
-		// attach slots to master node
-		if len(fields) < 9 {
-			return nil, errInvalidClusterNodes
-		}
+		// attach slots to master node, it may own no slots at all, e.g. it
+		// has just joined the cluster or all of its slots are migrated.
 		slots, err := parseClusterNodesSlot(fields[8:])
 		if err != nil {
 			return nil, err
